@@ -104,6 +104,9 @@ def instances(tier, rng):
                     if rng.random() < 0.5:
                         mixed.append(["width_raw", o[1]])
                     mixed.append(o)
+                # ... and, after the queries with ignored edges, the plain question again (answered from the object's cache): without
+                # extra starts / ends the synthetic edges lie on every covering walk anyway, so its answer is the plain optimum
+                mixed.append(["width_raw", []])
                 subs.append({"kind": "dag" if kind == "dag" else "digraph", "nodes": u["nodes"], "edges": u["edges"],
                              "starts": st, "ends": en, "ops": mixed})
     # larger seeded random cyclic digraphs (5-6 nodes): parallel exits / entries of an SCC next to competing branches;
@@ -214,9 +217,11 @@ def run(tier, seed):
     nid = 10 ** 6
     for s in srecs:
         for ev in s.get("events", []):
-            if ev["op"] == "width_raw":
+            if ev["op"] == "width_raw" and (ev["arg"][0] or s["starts"] or s["ends"]):
                 res.count_class("unjudged_raw_width_queries")
                 continue
+            if ev["op"] == "width_raw":
+                res.count_class("plain_width_queries_after_ignoring_ones")
             base = {"cls": "kPathCover" if s["kind"] == "dag" else "kPathCoverCycles", "nodes": s["nodes"],
                     "edges": s["edges"], "mode": "edge", "ign": ev["arg"][0] if ev["op"] == "width" else [],
                     "cons": [], "cons_kind": "edge", "cov": [1, 1], "starts": s["starts"], "ends": s["ends"],
